@@ -147,9 +147,6 @@ func checkC17(c *Check) {
 			}
 		})
 	}
-	if nst < 2 {
-		c.Fail("C17-R3 lost instances")
-	}
 	ndel := 0
 	for _, fn := range l.pkgFuncs(kpkg) {
 		for _, call := range callsIn(fn, true) {
@@ -158,6 +155,10 @@ func checkC17(c *Check) {
 				c.Ob("R3", "cert store delete in "+fnName(fn), call.Pos(), false, "certificates must never be removed")
 			}
 		}
+	}
+	if nst < 2 && ndel == 0 {
+		// (a revocation that deletes instead of marking is reported above, not as a lost instance)
+		c.Fail("C17-R3 lost instances")
 	}
 	// positive control for the zero-expected rule: the same matcher must find the audit keeper's deletes
 	ctrl := 0
